@@ -90,16 +90,17 @@ type FnGen struct {
 	vals   map[ssa.Value]Val
 	tuples map[ssa.Value][]Val
 
-	blockGuard map[*ssa.BasicBlock]string
-	exitState  map[*ssa.BasicBlock]State
-	edgeCond   map[[2]*ssa.BasicBlock]string
-	loops      map[*ssa.BasicBlock]*loopInfo
-	entrySt    State
-	env        map[string]Val // parameter environment for contract expressions
-	rets       []retInfo
-	siteNames  map[ssa.Instruction]string
-	callOrd    map[ssa.Instruction]int
-	defers     []*ssa.Defer
+	blockGuard  map[*ssa.BasicBlock]string
+	exitState   map[*ssa.BasicBlock]State
+	edgeCond    map[[2]*ssa.BasicBlock]string
+	loops       map[*ssa.BasicBlock]*loopInfo
+	entrySt     State
+	env         map[string]Val // parameter environment for contract expressions
+	rets        []retInfo
+	siteNames   map[ssa.Instruction]string
+	callOrd     map[ssa.Instruction]int
+	siteApplied map[string]int // "#0" at-call assertions: number of sites each applied to
+	defers      []*ssa.Defer
 
 	outOfSubset     []string
 	assumptions     map[string]bool
